@@ -409,6 +409,11 @@ def corpus():
         cs.append(dict(types=[{"bases": [], "abc": True}, {"bases": [0], "abc": True}, {"bases": []}, {"bases": []}], regs=[],
                        provides=[[2, ps]], offers=[[1, 3, ["A"]]],
                        ops=[[2, 1, 0, "adapt"], [2, 0, 0, "adapt"], [2, 3, 0, "adapt"], [2, 3, 0, "Supports"], [2, 1, 0, "Supports"]]))
+    # parallel offers between the same pair of protocols (identical weight), the first-registered one conditional and
+    # failing, the target one step further: the second parallel offer must still be tried
+    for fac in (["N"], ["F"], ["D", 0]):
+        cs.append(dict(types=[{"bases": []}] * 4, regs=[], offers=[[0, 1, fac], [0, 1, ["A"]], [1, 2, ["A"]], [2, 3, ["A"]]],
+                       ops=[[0, 2, 0, "adapt"], [0, 3, 0, "adapt_default"], [0, 2, 0, "Supports"], [0, 2, 0, "either0"]]))
     # chains of five and six adapters (no artificial limit on the chain length), also with lazily loaded offers
     line = [{"bases": []}] * 7
     for lazy in (False, True):
